@@ -55,6 +55,26 @@ def build(L, d, kind):
     else:
         L.SDendaccess(mk_sds(L, sd, b"unl", DFNT["int16"], [0, 40], 3, unlimited_rows=25))
     L.SDendaccess(mk_sds(L, sd, b"empty", DFNT["float32"], [20, 30], 4, write=False))
+    # datasets sharing named dimensions of which only a LATER one has a coordinate variable (scale + attribute), and a
+    # dataset whose coordinate variables were made in another order than its dimensions: the lists of coordinate
+    # variables and of dimensions in use do not line up
+    for nm, nt, seed in ((b"lvl_a", DFNT["int16"], 21), (b"lvl_b", DFNT["float32"], 22)):
+        s = mk_sds(L, sd, nm, nt, [4, 6], seed)
+        L.SDsetdimname(L.SDgetdimid(s, 0), b"level")
+        L.SDsetdimname(L.SDgetdimid(s, 1), b"band")
+        if nm == b"lvl_a":
+            dm = L.SDgetdimid(s, 1)
+            L.SDsetdimscale(dm, 6, DFNT["float32"], vals(DFNT["float32"], 6, 23))
+            L.SDsetattr(dm, b"wavelength_unit", DFNT["char8"], 2, b"nm")
+        L.SDendaccess(s)
+    s = mk_sds(L, sd, b"rev3", DFNT["uint8"], [3, 5, 2], 24)
+    for i, dn in ((2, b"zz"), (0, b"xx")):
+        dm = L.SDgetdimid(s, i)
+        L.SDsetdimname(dm, dn)
+        n = [3, 5, 2][i]
+        L.SDsetdimscale(dm, n, DFNT["int32"], vals(DFNT["int32"], n, 25 + i))
+    L.SDsetdimname(L.SDgetdimid(s, 1), b"yy")
+    L.SDendaccess(s)
     s = L.SDcreate(sd, b"chk", DFNT["int32"], 2, i32arr([20, 30]))
     L.SDsetchunk(s, chunkdef([7, 8]), HDF_CHUNK)
     raw = vals(DFNT["int32"], 600, 6)
